@@ -1,6 +1,9 @@
 package xsdtype
 
 import (
+	"encoding/base64"
+	"strings"
+
 	"github.com/dpb587/rdfkit-go/ontology/xsd/xsdiri"
 	"github.com/dpb587/rdfkit-go/ontology/xsd/xsdutil"
 	"github.com/dpb587/rdfkit-go/rdf"
@@ -12,7 +15,14 @@ type Base64Binary []byte
 var _ objecttypes.Value = Base64Binary{}
 
 func MapBase64Binary(lexicalForm string) (Base64Binary, error) {
-	return Base64Binary(xsdutil.WhiteSpaceCollapse(lexicalForm)), nil
+	lexicalForm = xsdutil.WhiteSpaceCollapse(lexicalForm)
+
+	// single spaces may separate the characters; the padding bits must be zero
+	if _, err := base64.StdEncoding.Strict().DecodeString(strings.ReplaceAll(lexicalForm, " ", "")); err != nil {
+		return nil, rdf.ErrLiteralLexicalFormNotValid
+	}
+
+	return Base64Binary(lexicalForm), nil
 }
 
 func (v Base64Binary) AsObjectValue() rdf.ObjectValue {
